@@ -110,6 +110,27 @@ impl Engine for Repl {
             .collect()
     }
 
+    fn expected_probes() -> &'static [&'static str] {
+        &[
+            "hold",
+            "hold_update_channel",
+            "drop_mutate",
+            "reorder",
+            "disconnect",
+            "reconnect",
+            "server_restart",
+            "mutate_buffered",
+            "two_mutates_buffered",
+            "two_updates_one_frame",
+            "disconnect_with_buffered_mutations",
+            "vis_toggled_again",
+            "message_split_2plus",
+            "event_overtook_update",
+            "two_struct_ops_one_window_same_slot",
+            "ack_after_timeout",
+        ]
+    }
+
     fn rule() -> &'static str {
         "each evaluation is one simulated run (seeded profile + trace of steps executed against the real server and client apps). distinct_nontrivial counts distinct abstract state signatures (per node: last op kind, last fault kind, server running, per client connection/authorisation state, update-message lag bucket, buffered-mutate bucket, in-flight buckets per channel class, visibility policy) observed after at least one fault had fired and at least one update message had been applied by a client"
     }
